@@ -508,6 +508,9 @@ struct Registry {
   std::map<std::string, OpFn> lib;    // library readers and writers
 };
 
+// byte-counting global operator new (defined in main.cpp)
+std::size_t& AllocCounter();
+
 // shared stream for the back-to-back (sequence) operations
 inline IWriter& SharedWriter() { static IWriter w; return w; }
 inline IReader& SharedReader() { static IReader r; return r; }
@@ -516,7 +519,32 @@ template <typename T>
 std::string CoreOps(const std::vector<Sx>& a) {
   const std::string& op = a.at(0).a;
   try {
-    if (op == "wput") {          // append one value to the shared stream
+    if (op == "hostile") {       // hostile T KIND HEX VALIDHEX : C02 / C11
+      const std::string& kind = a.at(2).a;
+      std::vector<std::uint8_t> bytes = UnHex(a.at(3).a), good = UnHex(a.at(4).a);
+      HeapBytes in(bytes), in2(good);
+      auto h = std::make_unique<Holder<T>>();
+      AllocCounter() = 0;
+      int code = 0; std::size_t consumed = 0;
+      if (kind == "inst") {
+        nop::Deserializer<IReader> d; d.reader().data = in.p; d.reader().size = in.n;
+        code = Code(d.Read(&h->v)); consumed = d.reader().index;
+      } else if (kind == "binst") {
+        IReader r; r.data = in.p; r.size = in.n;
+        nop::Deserializer<nop::BoundedReader<IReader>> d{&r, in.n};
+        code = Code(d.Read(&h->v)); consumed = r.index;
+      } else return "HARNESS-ERROR kind";
+      const std::size_t alloc = AllocCounter();
+      std::string partial; Dump(partial, h->v);                 // inspect
+      // read a valid encoding into the same object and into a fresh one
+      std::string again, fresh; int c2, c3;
+      { nop::Deserializer<IReader> d; d.reader().data = in2.p; d.reader().size = in2.n; c2 = Code(d.Read(&h->v)); Dump(again, h->v); }
+      { auto f = std::make_unique<Holder<T>>(); nop::Deserializer<IReader> d; d.reader().data = in2.p; d.reader().size = in2.n; c3 = Code(d.Read(&f->v)); Dump(fresh, f->v); }
+      return "st=" + std::to_string(code) + " consumed=" + std::to_string(consumed) + " alloc=" + std::to_string(alloc) +
+             " reuse=" + ((c2 == c3 && again == fresh) ? "ok" : ("diff:" + std::to_string(c2) + "/" + std::to_string(c3) + ":" + again + "/" + fresh));
+    } else if (op == "sizeof") {
+      return "sizeof=" + std::to_string(sizeof(T));
+    } else if (op == "wput") {          // append one value to the shared stream
       auto h = std::make_unique<Holder<T>>();
       Build(h->v, a.at(2));
       nop::Serializer<IWriter*> ser{&SharedWriter()};
